@@ -269,6 +269,9 @@ func zvC36Deltas() []zvC36Delta {
 		{Name: "export=A", F: func(s *zvC36Set) { s.Export = []string{"A"} }, Core: true},
 		{Name: "export=B", F: func(s *zvC36Set) { s.Export = []string{"B"} }, CoreN: true},
 		{Name: "import=A+export=B", F: func(s *zvC36Set) { s.Import = []string{"A"}; s.Export = []string{"B"} }},
+		// policy changes on a session with both families (in-place replacement has to reach both)
+		{Name: "ipv6-family+import=A", F: func(s *zvC36Set) { s.IPv6 = &zvC36Fam{}; s.Import = []string{"A"} }, Core: true},
+		{Name: "ipv6-family+export=B", F: func(s *zvC36Set) { s.IPv6 = &zvC36Fam{}; s.Export = []string{"B"} }, Core: true},
 	}
 }
 
